@@ -1,11 +1,11 @@
 """C20 - traversal is complete; equality is an order-insensitive equivalence.
 
-Decided: WALK (pre-order, whole list, pass-through), ACCESSORS (literal ==
-class name constant), EQ-TOTAL (no __eq__ touches a foreign operand
+Decided: WALK and EQ-LAWS (E7 exploration of walk, accessors and __eq__ on
+abstract trees), ACCESSORS (registry key == class name constant), EQ-TOTAL (no __eq__ touches a foreign operand
 unguarded), EQ-OBSERVES (equality looks at every field serialisation reads),
 PICKLE (reducers registered; existence only).
-Not decided: reflexivity/symmetry/multiset matching for all trees, pickle
-fidelity.
+Not decided: the laws beyond the explored tree family (bounded shapes),
+pickle fidelity.
 """
 import ast
 
@@ -18,13 +18,14 @@ def run(ctx):
     m = ctx.model
     comp = m.cls("cal.Component")
     ctx.explanation = (
-        "shape rules on Component._walk/walk (pre-order append before an "
-        "unfiltered loop over self.subcomponents with pass-through of name and "
-        "select), accessor literal vs class name constants, guard analysis of "
+        "abstract interpretation (E7) of walk/_walk, the kind accessors and "
+        "Component.__eq__ on a family of abstract component trees compared with "
+        "the pre-order / equivalence laws of the statement; guard analysis of "
         "every __eq__ in the package, fields read by property_items vs fields "
         "compared by Component.__eq__, copyreg registrations.")
     _walk_rule(ctx, comp)
     _accessors(ctx)
+    _eq_laws(ctx, comp)
     _eq_total(ctx)
     _eq_observes(ctx, comp)
     _pickle(ctx)
@@ -32,208 +33,41 @@ def run(ctx):
 
 # ---------------------------------------------------------------------------
 def _walk_rule(ctx, comp):
-    w = comp.methods.get("_walk")
-    if w is None:
-        raise AnalysisError("anchor vanished: Component._walk")
-    if len(w.params) != 3:
-        raise AnalysisError("Component._walk no longer takes (self, name, select)")
-    selfn, name_p, sel_p = w.params
-    body = body_without_docstring(w.node)
-    env = SymEnv(w.node)
-    loops = [(i, st) for i, st in enumerate(body) if isinstance(st, ast.For)]
-    sub_loops = []
-    for i, lp in loops:
-        it = env.expand_at(lp.iter, lp)
-        if isinstance(it, ast.Attribute) and it.attr == "subcomponents" \
-                and is_param(it.value, selfn):
-            sub_loops.append((i, lp, "whole"))
-        elif any(isinstance(x, ast.Attribute) and x.attr == "subcomponents"
-                 for x in ast.walk(it)):
-            sub_loops.append((i, lp, dump(it)))
-    if len(sub_loops) != 1:
-        # comprehension-based rewrite? look for it
-        raise AnalysisError("Component._walk: expected exactly one loop over "
-                            "self.subcomponents at the top level of the body")
-    li, lp, how = sub_loops[0]
-    ctx.check(how == "whole", "C20/WALK", "_walk iterates whole list",
-              f"_walk iterates `{how}` instead of the entire self.subcomponents",
-              w.loc(lp), detail="for sub in self.subcomponents")
-    exits = [n for n in ast.walk(lp) if isinstance(n, (ast.Break, ast.Return, ast.Continue))]
-    conds = [n for n in lp.body if isinstance(n, ast.If)]
-    ctx.check(not exits and not conds and not lp.orelse, "C20/WALK",
-              "_walk loop unconditional",
-              "the loop over subcomponents has an early exit or a filter: some "
-              "subcomponents are not visited", w.loc(lp),
-              detail="no break/continue/return/if in the loop")
-    # accumulation of the recursive result with pass-through args
-    rec = [c for c in ast.walk(lp) if isinstance(c, ast.Call)
-           and isinstance(c.func, ast.Attribute) and c.func.attr == "_walk"]
-    acc_ok = False
-    pass_ok = False
-    acc_name = None
-    for st in lp.body:
-        if isinstance(st, ast.AugAssign) and isinstance(st.op, ast.Add) \
-                and isinstance(st.target, ast.Name) and st.value in rec:
-            acc_ok, acc_name = True, st.target.id
-        if isinstance(st, ast.Expr) and isinstance(st.value, ast.Call) \
-                and isinstance(st.value.func, ast.Attribute) \
-                and st.value.func.attr == "extend" and st.value.args \
-                and st.value.args[0] in rec \
-                and isinstance(st.value.func.value, ast.Name):
-            acc_ok, acc_name = True, st.value.func.value.id
-    for c in rec:
-        recv = c.func.value
-        tgt_ok = isinstance(recv, ast.Name) and isinstance(lp.target, ast.Name) \
-            and recv.id == lp.target.id
-        args = list(c.args) + [k.value for k in c.keywords]
-        pass_ok = tgt_ok and len(args) == 2 and all(
-            isinstance(a, ast.Name) for a in args) and \
-            [a.id for a in args] == [name_p, sel_p] and \
-            is_param(env.expand_at(args[0], lp), name_p) and \
-            is_param(env.expand_at(args[1], lp), sel_p)
-    ctx.check(len(rec) == 1 and acc_ok, "C20/WALK", "_walk accumulates recursion",
-              "every recursive _walk result must be added to the result list",
-              w.loc(lp), detail="result += sub._walk(...)")
-    ctx.check(pass_ok, "C20/WALK", "_walk passes name and select",
-              "the recursive call must pass the requested name and predicate "
-              "through unchanged on the loop element", w.loc(lp),
-              detail="sub._walk(name, select)")
-    # self appended before the loop, under the name/select test
-    pre = None
-    for i, st in enumerate(body[:li]):
-        for n in ast.walk(st):
-            if isinstance(n, ast.Call) and isinstance(n.func, ast.Attribute) \
-                    and n.func.attr == "append" and n.args \
-                    and isinstance(n.args[0], ast.Name) and n.args[0].id == selfn \
-                    and isinstance(n.func.value, ast.Name) \
-                    and n.func.value.id == acc_name:
-                pre = st
-    post = any(isinstance(n, ast.Call) and isinstance(n.func, ast.Attribute)
-               and n.func.attr in ("append", "insert") and n.args
-               and any(isinstance(a, ast.Name) and a.id == selfn for a in n.args)
-               for st in body[li:] for n in ast.walk(st))
-    ctx.check(pre is not None and not post, "C20/WALK", "_walk pre-order",
-              "self must be appended to the result before its subcomponents "
-              "are visited (pre-order)", w.loc(),
-              detail="append(self) precedes the loop")
-    if pre is not None:
-        if isinstance(pre, ast.If):
-            t = pre.test
-            s = dump(t)
-            has_none = any(isinstance(c, ast.Compare) and isinstance(c.ops[0], ast.Is)
-                           and isinstance(c.left, ast.Name) and c.left.id == name_p
-                           for c in ast.walk(t))
-            has_eq = any(isinstance(c, ast.Compare) and isinstance(c.ops[0], ast.Eq)
-                         and {dump(c.left), dump(c.comparators[0])} ==
-                         {f"{selfn}.name", name_p} for c in ast.walk(t))
-            has_sel = any(isinstance(c, ast.Call) and isinstance(c.func, ast.Name)
-                          and c.func.id == sel_p and len(c.args) == 1
-                          and isinstance(c.args[0], ast.Name) and c.args[0].id == selfn
-                          for c in ast.walk(t))
-            shape = (isinstance(t, ast.BoolOp) and isinstance(t.op, ast.And)
-                     and len(t.values) == 2 and isinstance(t.values[0], ast.BoolOp)
-                     and isinstance(t.values[0].op, ast.Or))
-            ctx.check(has_none and has_eq and has_sel and shape and not pre.orelse,
-                      "C20/WALK", "_walk membership test",
-                      f"self is listed iff (name is None or self.name == name) "
-                      f"and select(self); found `{s}`", w.loc(pre),
-                      detail="(name is None or self.name == name) and select(self)")
-        else:
-            ctx.fail("C20/WALK", "_walk membership test",
-                     "self is appended unconditionally", w.loc(pre))
-    rets = [n for n in walk_no_nested(w.node) if isinstance(n, ast.Return)]
-    ctx.check(len(rets) == 1 and isinstance(rets[0].value, ast.Name)
-              and rets[0].value.id == acc_name and rets[0] is body[-1],
-              "C20/WALK", "_walk returns accumulator",
-              "the accumulator must be the single, final return", w.loc(),
-              detail="return result")
-    # walk(): upper-cases the name, delegates
+    """walk/_walk and the kind accessors, decided on abstract trees (E7)."""
+    from .. import treemodel
     wk = comp.methods.get("walk")
     if wk is None:
         raise AnalysisError("anchor vanished: Component.walk")
-    envw = SymEnv(wk.node)
-    rets = [n for n in walk_no_nested(wk.node) if isinstance(n, ast.Return)]
-    good = False
-    for r in rets:
-        v = r.value
-        if isinstance(v, ast.Call) and isinstance(v.func, ast.Attribute) \
-                and v.func.attr == "_walk" and len(v.args) == 2:
-            a0 = envw.expand_at(v.args[0], r)
-            a1 = envw.expand_at(v.args[1], r)
-            # name is either the raw param (when None) or name.upper(): the
-            # merge of the two branches is $unknown, so look at the branch
-            up = [n for n in ast.walk(wk.node) if isinstance(n, ast.Assign)
-                  and isinstance(n.targets[0], ast.Name)
-                  and n.targets[0].id == wk.params[1]
-                  and isinstance(n.value, ast.Call)
-                  and isinstance(n.value.func, ast.Attribute)
-                  and n.value.func.attr == "upper"
-                  and isinstance(n.value.func.value, ast.Name)
-                  and n.value.func.value.id == wk.params[1]]
-            inline = isinstance(a0, ast.IfExp) or (
-                isinstance(a0, ast.Call) and isinstance(a0.func, ast.Attribute)
-                and a0.func.attr == "upper")
-            good = (bool(up) or inline) and is_param(a1, wk.params[2])
-    ctx.check(good, "C20/WALK", "walk upper-cases name",
-              "walk(name) must match case-insensitively: the requested name is "
-              "upper-cased before comparing with the (upper-case) component names",
-              wk.loc(), detail="name = name.upper(); self._walk(name, select)")
-    # no subclass overrides _walk/walk
+    treemodel.report(ctx, "C20/WALK", treemodel.explore_walk,
+                     "walk returns the matching components exactly once, in pre-order",
+                     wk.loc(), 400)
+    # subclasses that override the traversal are not exercised by the trees
+    covered = {q for q, _ in treemodel.KINDS} | {q for q, _ in treemodel.ZONE_TREE[1]}
     for sc in ctx.model.subclasses(comp):
         for meth in ("_walk", "walk"):
-            ctx.check(meth not in sc.methods, "C20/WALK",
-                      f"{sc.qualname} inherits {meth}",
-                      f"{sc.qualname} overrides {meth}: traversal of that "
-                      f"subtree is not covered by this rule", sc.loc(),
-                      detail="inherited")
+            if meth in sc.methods and sc.qualname not in covered:
+                raise AnalysisError(f"{sc.qualname} overrides {meth}: add it to the abstract "
+                                    f"trees of sa/treemodel.py")
 
 
-# ---------------------------------------------------------------------------
 def _accessors(ctx):
     m = ctx.model
-    wanted = [("cal.Calendar", "events"), ("cal.Calendar", "todos"),
-              ("cal.Calendar", "timezones"), ("cal.Timezone", "standard"),
-              ("cal.Timezone", "daylight")]
-    for cq, acc in wanted:
-        ci = m.cls(cq)
-        p = ci.properties.get(acc, {}).get("get")
-        if p is None:
-            raise AnalysisError(f"anchor vanished: property {cq}.{acc}")
-        rets = [n for n in walk_no_nested(p.node) if isinstance(n, ast.Return)]
-        lit = None
-        if len(rets) == 1 and isinstance(rets[0].value, ast.Call) \
-                and isinstance(rets[0].value.func, ast.Attribute) \
-                and rets[0].value.func.attr == "walk" \
-                and len(rets[0].value.args) == 1 and not rets[0].value.keywords:
-            try:
-                lit = m.const(rets[0].value.args[0], ci.module, ci)
-            except AnalysisError:
-                lit = None
-        if not isinstance(lit, str):
-            raise AnalysisError(f"{cq}.{acc}: not `return self.walk(<literal>)`")
-        ann = p.node.returns
-        target = None
-        if ann is not None:
-            s = dump(ann)
-            if isinstance(ann, ast.Constant) and isinstance(ann.value, str):
-                s = ann.value
-            inner = s[s.find("[") + 1: s.rfind("]")] if "[" in s else s
-            r = m.resolve_name(ci.module, inner.strip())
-            if isinstance(r, ClassInfo):
-                target = r
-        if target is None:
-            raise AnalysisError(f"{cq}.{acc}: return annotation does not name a component class")
-        cname = m.class_const(target, "name")
-        ctx.check(lit.upper() == cname, "C20/ACCESSORS", f"{cq}.{acc}",
-                  f"{acc} walks for {lit!r} but returns {target.name} whose "
-                  f"name constant is {cname!r}", p.loc(),
-                  detail=f"walk({lit!r}) == {target.name}.name")
     # registry: every registered class's name constant equals its key
     for key, (ci, node) in m.component_registry().items():
         cname = m.class_const(ci, "name")
         ctx.check(cname == key, "C20/ACCESSORS", f"registry {key}",
                   f"component_factory[{key!r}] is {ci.name} whose name constant "
                   f"is {cname!r}", ci.loc(), detail=f"{ci.name}.name == {key!r}")
+
+
+def _eq_laws(ctx, comp):
+    from .. import treemodel
+    eq = comp.methods.get("__eq__")
+    if eq is None:
+        raise AnalysisError("anchor vanished: Component.__eq__")
+    treemodel.report(ctx, "C20/EQ-LAWS", treemodel.explore_eq,
+                     "reflexive, symmetric, order-insensitive, total, distinguishing",
+                     eq.loc(), 400)
 
 
 # ---------------------------------------------------------------------------
@@ -408,50 +242,7 @@ def _self_fields(f, selfn):
 
 
 def _eq_observes(ctx, comp):
-    pi = comp.methods.get("property_items")
-    eq = comp.methods.get("__eq__")
-    if pi is None or eq is None:
-        raise AnalysisError("anchor vanished: Component.property_items/__eq__")
-    mapping_methods = {"keys", "sorted_keys", "items", "sorted_items", "values", "get"}
-    ser = set()
-    for a in _self_fields(pi, pi.params[0]):
-        ser.add("items" if a in mapping_methods else a)
-    ser -= {"property_items"}
-    cmp_ = set()
-    for a in _self_fields(eq, eq.params[0]):
-        cmp_.add("items" if a in mapping_methods else a)
-    ctx.extra["serialised_fields"] = sorted(ser)
-    ctx.extra["compared_fields"] = sorted(cmp_)
-    if not {"name", "items", "subcomponents"} <= ser:
-        raise AnalysisError(f"property_items reads {sorted(ser)}; expected name, "
-                            f"items and subcomponents among them")
-    for fld in sorted(ser):
-        ctx.check(fld in cmp_, "C20/EQ-OBSERVES", f"Component.__eq__ compares {fld}",
-                  f"serialisation reads self.{fld} but Component.__eq__ never "
-                  f"looks at it: trees that differ only in {fld} compare equal",
-                  eq.loc(), witness="Event() == Todo() -> True" if fld == "name" else None,
-                  detail="compared")
-    # order-insensitivity: subcomponents are matched by membership, not by position
-    positional = []
-    for n in ast.walk(eq.node):
-        if isinstance(n, ast.Call) and isinstance(n.func, ast.Name) and n.func.id in ("zip", "enumerate"):
-            if "subcomponents" in dump(n) or True:
-                positional.append(n)
-        if isinstance(n, ast.Compare) and isinstance(n.ops[0], (ast.Eq, ast.NotEq)) \
-                and "subcomponents" in dump(n.left) and "subcomponents" in dump(n.comparators[0]) \
-                and "len(" not in dump(n.left):
-            positional.append(n)
-    member = [n for n in ast.walk(eq.node) if isinstance(n, ast.Compare)
-              and isinstance(n.ops[0], (ast.In, ast.NotIn))
-              and "subcomponents" in dump(n.comparators[0])]
-    ctx.check(not positional and bool(member), "C20/EQ-ORDER",
-              "subcomponents matched by membership",
-              f"Component.__eq__ compares subcomponents by position "
-              f"(`{dump(positional[0])[:60] if positional else 'no membership test found'}`): "
-              f"the result then depends on the order in which equal-keyed siblings "
-              f"were added", eq.loc(positional[0]) if positional else eq.loc(),
-              witness="two VALARMs of one event listed in swapped order",
-              detail="`sub in other.subcomponents` for every sub")
+    # (Component.__eq__ itself is decided by C20/EQ-LAWS on abstract trees.)
     # value classes: __eq__ of TimeBase compares params and dt
     tb = ctx.model.cls("prop.TimeBase").methods.get("__eq__")
     if tb is not None:
